@@ -52,7 +52,7 @@ import re
 
 from .. import errdisc as E
 from .. import c12_util as U
-from ..charset import Unsupported, field_vec
+from ..charset import Unsupported, field_vec, int_type
 from ..flow import path_search, describe_path
 
 # genuine findings on the pristine tree: (rule, key, explanation)
@@ -803,11 +803,18 @@ def _nlfw_way(fb, R, fn, stor, flag, lookup_q):
 
     # sentinel reset: after the sorts the last-id member is set to the maximum of its type, on every path that clears the flag
     def is_reset(f, n):
+        # the stored value must be the maximum of the member's own type: only then does EVERY following key count as a descent
         if n.get('k') == 'assign' and n.get('op') == '=' and f.is_this_member(n['lhs']) and not f.is_this_member(n['lhs'], flag):
-            if f.const_value(n['rhs']) == 2 ** 64 - 1:
-                return True
+            lt = int_type((f.sn(n['lhs']) or {}).get('t'))
+            if lt is None:
+                return False
+            tmax = (1 << (lt[1] - (1 if lt[0] else 0))) - 1
+            v = f.const_value(n['rhs'])
+            if v is not None:
+                return v == tmax
             x = U.scn(f, n['rhs'])
-            return x is not None and x.get('k') == 'call' and x.get('q') == 'std::numeric_limits::max' and not x.get('args')
+            xt = int_type(x.get('t')) if x is not None else None
+            return x is not None and x.get('k') == 'call' and x.get('q') == 'std::numeric_limits::max' and not x.get('args') and xt == lt
         return False
     resets = _role_ids(fb, fn, is_reset)
     clears = _role_ids(fb, fn, is_clear)
